@@ -1,6 +1,7 @@
 package main
 
 import (
+	"fmt"
 	"go/ast"
 	"go/printer"
 	"go/token"
@@ -10,3 +11,11 @@ import (
 func printerFprint(w io.Writer, fset *token.FileSet, e ast.Expr) error {
 	return printer.Fprint(w, fset, e)
 }
+
+func constantInt64(v interface{ ExactString() string }) (int64, bool) {
+	var n int64
+	_, err := fmtSscan(v.ExactString(), &n)
+	return n, err == nil
+}
+
+func fmtSscan(s string, n *int64) (int, error) { return fmt.Sscan(s, n) }
